@@ -1,0 +1,32 @@
+//go:build verif
+
+package engine
+
+// Facade used by the verification harness (/verif), property C05: the replication apply loop
+// (readCommitFromRaft -> dealCommitData), the start-up replay (readReplayForReplication) and
+// WriteToRaft, callable with a storage double and without loading a partition from disk.
+// Nothing here is compiled without the `verif` build tag.
+
+import (
+	"github.com/openGemini/openGemini/lib/metaclient"
+	"github.com/openGemini/openGemini/lib/raftconn"
+)
+
+// VerifReadCommitFromRaft is readCommitFromRaft (returns when the node's commit channel is closed).
+func VerifReadCommitFromRaft(node *raftconn.RaftNode, client metaclient.MetaClient, storage StorageService) {
+	readCommitFromRaft(node, client, storage)
+}
+
+// VerifReadReplay is readReplayForReplication.
+func VerifReadReplay(replayC chan *raftconn.Commit, client metaclient.MetaClient, storage StorageService, db string, ptId uint32) {
+	readReplayForReplication(replayC, client, storage, db, ptId)
+}
+
+// VerifRaftEngine is an engine that holds exactly one loaded partition whose raft node is `node`;
+// WriteToRaft(db, rp, ptId, tail) on it proposes through that node and waits as in production.
+func VerifRaftEngine(db string, ptId uint32, node *raftconn.RaftNode) *EngineImpl {
+	pt := &DBPTInfo{database: db, id: ptId}
+	pt.node = node
+	pt.proposeC = node.GetProposeC()
+	return &EngineImpl{DBPartitions: map[string]map[uint32]*DBPTInfo{db: {ptId: pt}}}
+}
